@@ -4,7 +4,8 @@ CONSTANTS
   Chains <- AllChains
   Methods <- SomeMethods
   Paths <- SomePaths
-  MaxSeq = 2
+  Counter <- CounterTuple
+  MaxSeq = 1
   MaxUpd = 1
 INVARIANTS AckRelayerField
 PROPERTIES OnlyRegistered TssOnly NothingForOtherChains AckRelayerIsSubmitter FeeToRegistered PrivNeverActs RejectChangesNothing NeverRegisteredNeverActs
